@@ -52,6 +52,12 @@ CHECKS = {
    note="Compatibility for API interfaces comes from the generator's model (cross-checked against the validator's relation where no abstract resource is involved), for bare functions from the validator's relation. Tolerance T4 (socket with two imports on one track): only exact-name offers are prescribed. A documented merge refusal among leftover imports at encode time is not counted against plug. Two invalid-output classes shared with C01 are listed known findings.",
    technique="property-based testing: differential against a reference plug algorithm + validity/wiring predicates over the decoded output (proptest)",
    design="C10"),
+ "C11": dict(
+   category="exploration",
+   text="A target world (API interfaces at several versions incl. interfaces that use others, bare functions, inline interfaces) and a component built by the reference toolchain for that world after 0-2 perturbations (dropped/extra import or export, changed function signature, another version of an interface, inline interface with a function more or less, an import replaced by the interfaces it uses). A model of both sides (cross-checked against what the toolchain built) predicts the set of conformance violations. Document::resolve — with the world from a WIT package and with the same world declared in the document — must accept iff the set is empty and otherwise name a predicted violation; wac_types::validate_target on the encoded output must report exactly the predicted set; both verdicts must coincide; for resource-free worlds the reference validator's component subtyping output <: world must agree; the targets clause must not change the bytes.",
+   note="The composition is always `let c = new test:c0 { ... }; export c...;`, so its externs are those of the generated component. Expected sets are computed under exact-name lookup (resolver) and semver-aware lookup (stand-alone check); their documented disagreement for semver-near names is a listed known finding, as are two limitations of worlds declared in the document (partial view of a used interface; use chains).",
+   technique="property-based testing: model-predicted verdicts over perturbed (world, composition) pairs, differential between resolver, stand-alone check and the reference validator's subtyping (proptest)",
+   design="C11"),
  "C12": dict(
    category="exploration",
    text="Grammar-derived documents (own AST model, random layout) must parse to the derivation's tree; all single-token deletions/duplications/swaps and a fixed third of an 18-token substitution pool per position, raw insertions (forbidden code points, quotes, comment openers, separators, malformed versions) and ~140 hand-written near-miss forms are decided by a reference tokenizer+recogniser written from LANGUAGE.md; wac must agree on membership, on the tree when both accept, and locate its error inside the source when both reject.",
